@@ -39,9 +39,9 @@ UNIT = F.make_unit('fmt_go', 'Go', SRC, 'Go',
                    x12={
                        'frame': '/*C12: recorded imports are never lost*/ old(self).imports.names().subset_of(final(self).imports.names()),',
                        'ty': '/*C12: a type expression that prints `time.Time` has recorded the import of "time"*/ (r is Ok && reaches(old(self).cfg(), *ty, Kind::DateTime)) ==> final(self).imports.names().contains("time"@),',
-                       'gen': '(r is Ok && reaches_any(old(self).cfg(), *base, parameters@, Kind::DateTime)) ==> final(self).imports.names().contains("time"@),',
-                       'special': '(r is Ok && reaches_special(old(self).cfg(), *special_ty, Kind::DateTime)) ==> final(self).imports.names().contains("time"@),',
-                       'inv': 'old(self).imports.names().subset_of(self.imports.names()), forall|k: int| 0 <= k < it.index@ ==> (reaches(c0, #[trigger] parameters@[k], Kind::DateTime) ==> self.imports.names().contains("time"@)),',
+                       'gen': '/*C12*/ (r is Ok && reaches_any(old(self).cfg(), *base, parameters@, Kind::DateTime)) ==> final(self).imports.names().contains("time"@),',
+                       'special': '/*C12*/ (r is Ok && reaches_special(old(self).cfg(), *special_ty, Kind::DateTime)) ==> final(self).imports.names().contains("time"@),',
+                       'inv': '\n                    /*C12*/ old(self).imports.names().subset_of(self.imports.names()), forall|k: int| 0 <= k < it.index@ ==> (reaches(c0, #[trigger] parameters@[k], Kind::DateTime) ==> self.imports.names().contains("time"@)),',
                    })
 UNIT.spec_files = list(UNIT.spec_files) + ['helpers.rs']
 UNIT.functions.append('RustType::is_vec')
